@@ -1,6 +1,8 @@
 //! Drivers for C06 (byte-search iterators), C07 (counting), C08 (substring
 //! iterators) and C16 (finder purity / reuse / clone / into_owned).
 
+#[allow(unused_imports)]
+use crate::prelude::*;
 use crate::case::{Api, Be, Fam};
 use crate::exec::{push_record, typed_backends};
 use crate::gen;
@@ -545,6 +547,14 @@ pub fn purity(r: &mut Runner) {
             }
         }
         r.run(Api::new(Fam::History, Be::Top, 0, false, 0), &hay, ndl, [0; 4], &ops, Place::Heap, Place::GuardR, true);
+        // the iterator carries prefilter state across next() calls: clone it
+        // / convert it at several points of a traversal that drives the
+        // prefilter inert, and require the copy to finish the same sequence
+        for ops in [&b"nnnc"[..], b"nnno", b"c", b"o", b"nnnnnnnnnnnnnnnnnnnnnnnnnnnnnnnnnnnnnnnnnnnnnnnnnnnnnnnnnnnnco"] {
+            for form in 0..2 {
+                r.run(Api::new(Fam::SubIter, Be::Top, 0, false, form), h, ndl, [0; 4], ops, Place::Heap, Place::GuardL, true);
+            }
+        }
     });
     // iterators cloned / converted at every step index
     let mut k = 0u64;
